@@ -64,6 +64,7 @@ func init() {
 	reg(propCfg{ID: "C15", Level: "exploration", Quick: q(16, 2000), Thorough: th(16, 40000)})
 	reg(propCfg{ID: "C16", Level: "exploration", Quick: q(16, 2500), Thorough: th(16, 60000)})
 	reg(propCfg{ID: "C17", Level: "exploration", Quick: q(16, 2000), Thorough: th(16, 40000)})
+	reg(propCfg{ID: "C20", Level: "exploration", Quick: q(16, 400), Thorough: th(16, 6000)})
 	reg(propCfg{ID: "C19", Level: "exploration", Quick: q(16, 1500), Thorough: th(16, 30000)})
 	reg(propCfg{ID: "C18", Level: "exploration", Quick: q(16, 3000), Thorough: th(16, 80000)})
 	reg(propCfg{ID: "C05", Level: "exploration", Quick: q(16, 3000), Thorough: th(16, 80000)})
@@ -71,6 +72,7 @@ func init() {
 	reg(propCfg{ID: "C07", Level: "exploration", Quick: q(16, 2500), Thorough: th(16, 40000)})
 	reg(propCfg{ID: "C08", Level: "fault_enumeration", Quick: q(16, 6000), Thorough: th(16, 150000), MemLimitKB: 4 << 20, DeathIsViolation: true})
 	reg(propCfg{ID: "C09", Level: "exploration", Quick: q(16, 800), Thorough: th(16, 10000)})
+	reg(propCfg{ID: "C10", Level: "exploration", Race: true, Quick: q(16, 60), Thorough: th(16, 1500)})
 	reg(propCfg{ID: "C11", Level: "exploration", Quick: q(16, 5000), Thorough: th(16, 60000)})
 }
 
@@ -107,6 +109,7 @@ type shardResult struct {
 	timeout  bool
 	inflight []byte
 	libhang  string // name of the library call that did not return (watchdog)
+	race     bool   // the race detector reported a data race (binary built with -race, halt_on_error)
 }
 
 func shardSeed(seed int64, k int) uint64 {
@@ -134,7 +137,7 @@ func runShard(cfg propCfg, bin, id, tier string, k, n int, seed int64, checks in
 	}
 	cmd.Dir = filepath.Join(verifDir(), "props")
 	cmd.Env = append(os.Environ(),
-		"VERIF_INFLIGHT="+inflight,
+		"VERIF_INFLIGHT="+inflight, "GORACE=halt_on_error=1",
 		"VERIF_MODE=search", "VERIF_TIER="+tier, "VERIF_SHARD="+strconv.Itoa(k), "VERIF_NSHARDS="+strconv.Itoa(n),
 		"VERIF_SEED="+strconv.FormatInt(seed, 10), "VERIF_PART_OUT="+partPath, "VERIF_DIR="+verifDir(),
 		"VERIF_CHECKS="+strconv.Itoa(checks))
@@ -150,6 +153,9 @@ func runShard(cfg propCfg, bin, id, tier string, k, n int, seed int64, checks in
 	}
 	if strings.Contains(res.out, "panic: test timed out") {
 		res.timeout = true
+	}
+	if strings.Contains(res.out, "WARNING: DATA RACE") {
+		res.race = true
 	}
 	if b, err := os.ReadFile(partPath); err == nil {
 		var p h.Part
@@ -179,6 +185,14 @@ type evidence struct {
 	Assumptions []string               `json:"assumptions"`
 	WallS       float64                `json:"wall_s"`
 	Violations  int                    `json:"violations"`
+}
+
+func clipLines(s string, n int) string {
+	lines := strings.Split(s, "\n")
+	if len(lines) > n {
+		lines = lines[:n]
+	}
+	return strings.Join(lines, "\n")
 }
 
 func tail(s string, n int) string {
@@ -372,6 +386,23 @@ func run(cfg propCfg, tier string, seed int64) int {
 	capped := false
 	var notes []string
 	for _, r := range results {
+		if r.race {
+			dir := filepath.Join(verifDir(), "replays")
+			os.MkdirAll(dir, 0o755)
+			path := filepath.Join(dir, fmt.Sprintf("%s-race-shard%d.json", cfg.ID, r.k))
+			report := r.out
+			if i := strings.Index(report, "WARNING: DATA RACE"); i >= 0 {
+				report = report[i:]
+			}
+			rf := h.ReplayFile{Property: cfg.ID, Class: "race", Msg: "the race detector reported a data race while this case was in flight:\n" + clipLines(report, 60), Case: json.RawMessage(r.inflight)}
+			if len(r.inflight) == 0 {
+				rf.Case = json.RawMessage("null")
+			}
+			b, _ := json.MarshalIndent(rf, "", " ")
+			os.WriteFile(path, b, 0o644)
+			failures = append(failures, &h.FailureRec{Class: "race", Msg: rf.Msg, Replay: path})
+			continue
+		}
 		if (r.part == nil || !r.part.Done) && r.libhang != "" && len(r.inflight) > 0 {
 			// the watchdog saw a call into the library run for more than its limit: confirm by
 			// re-running the journaled case alone; only a repeat is reported
